@@ -93,6 +93,29 @@ def check(spec, ctx):
     if again != data:
         keys = [k for k in sorted(set(again) | set(data)) if again.get(k) != data.get(k)]
         ctx.fail(f"{spec['ctype']}: saving the same object twice gives different documents (differing sections: {keys})", spec, None, None, kind="second_save_differs")
+    # a save that is rejected (an audio directory that does not hold the recordings) leaves nothing behind in the process: the next
+    # save of the same object writes the same document
+    path_b = os.path.join(d, "doc2-b.json")
+    try:
+        io.save(obj, path_b, audio_dir=Path(d) / "no such place" / "x")
+        ctx.label("save_under_foreign_dir_accepted(no recording)")
+    except Exception:  # noqa: BLE001 - rejection is the expected outcome here (C18 decides it)
+        ctx.label("rejected_save_then_save")
+    ctx.call(spec, f"io.save({spec['ctype']}) after a rejected save", io.save, obj, path, **kw)
+    with open(path) as fh:
+        again = json.load(fh)["data"]
+    if again != data:
+        keys = [k for k in sorted(set(again) | set(data)) if again.get(k) != data.get(k)]
+        ctx.fail(f"{spec['ctype']}: after a save that was rejected, saving the object gives a different document (differing sections: {keys})", spec, None, None, kind="save_after_rejected_save")
+
+    # two threads saving the same collection into two files: this save is suspended at lines inside the library while the other
+    # thread saves from start to end; both documents are the document
+    def save_read(target):
+        io.save(obj, target, **kw)
+        with open(target) as fh:
+            return json.load(fh)["data"]
+
+    ctx.interleave(spec, f"io.save({spec['ctype']})", lambda: save_read(path), lambda: save_read(path_b), every=3, max_pauses=48)
     reach = graphs.walk(obj)
 
     refs = {}  # (kind, id) -> number of references
